@@ -145,13 +145,24 @@ func execute(req *wire.Request) *wire.Result {
 type taskState struct {
 	p    *bkl.Parser
 	docs map[string]*bkl.Document
+	// held keeps the byte slices returned by Output until the task ends, as a
+	// caller that goes on using the library while holding earlier results
+	// would; they are turned into strings only then
+	held map[int][]byte
+	cur  int
 }
 
 var progress *bufio.Writer
 
 func runTask(ti int, spec *wire.TaskSpec) []wire.OpResult {
 	out := make([]wire.OpResult, len(spec.Ops))
-	ts := &taskState{docs: map[string]*bkl.Document{}}
+	ts := &taskState{docs: map[string]*bkl.Document{}, held: map[int][]byte{}}
+	defer func() {
+		for i, b := range ts.held {
+			s := string(b)
+			out[i].Bytes = &s
+		}
+	}()
 	dead := false
 	for i := range spec.Ops {
 		if dead {
@@ -164,6 +175,7 @@ func runTask(ti int, spec *wire.TaskSpec) []wire.OpResult {
 			progress.Flush()
 		}
 		simrt.BeginCall()
+		ts.cur = i
 		out[i] = runOp(ts, &spec.Ops[i])
 		if out[i].Outcome == "panic" || out[i].Outcome == "budget" {
 			dead = true
@@ -266,8 +278,7 @@ func runOp(ts *taskState, op *wire.Op) (r wire.OpResult) {
 		if err != nil {
 			r = fail(err)
 		} else {
-			s := string(b)
-			r.Bytes = &s
+			ts.held[ts.cur] = b
 		}
 	case "OutputDocuments":
 		outs, err := ts.p.OutputDocuments()
